@@ -266,6 +266,9 @@ def _tv_batch(spec, cfg_text, batch, offset, ev_key, timeout, extra_env):
         shutil.rmtree(tmp, ignore_errors=True)
 
 
+MAX_BATCH_BYTES = 24_000_000     # a 94 MB batch made TLC's JSON reader fail (thorough C15)
+
+
 def validate(spec: str, traces: list[dict], *, cfg_text=TV_CFG, ev_key="ev", batch_events=20000,
              jobs=14, timeout=900, env=None) -> TVResult:
     """Validate recorded traces against trace specification `spec`.
@@ -279,13 +282,14 @@ def validate(spec: str, traces: list[dict], *, cfg_text=TV_CFG, ev_key="ev", bat
     if not traces:
         return res
     batches = []
-    cur, n, off = [], 0, 0
+    cur, n, off, nbytes = [], 0, 0, 0
     for i, t in enumerate(traces):
         cur.append(t)
         n += len(t[ev_key]) + 1
-        if n >= batch_events:
+        nbytes += len(json.dumps(t, separators=(",", ":")))      # events that carry whole screens: a batch is also cut by size
+        if n >= batch_events or nbytes >= MAX_BATCH_BYTES:
             batches.append((off, cur))
-            off, cur, n = i + 1, [], 0
+            off, cur, n, nbytes = i + 1, [], 0, 0
     if cur:
         batches.append((off, cur))
     t0 = time.time()
